@@ -299,6 +299,9 @@ func toInt(rv reflect.Value) (int, error) {
 	case reflect.Interface:
 		return toInt(rv.Elem())
 
+	case reflect.Invalid:
+		return 0, fmt.Errorf("cose/key: ToInt: invalid value nil")
+
 	default:
 		return 0, fmt.Errorf("cose/key: ToInt: invalid value type %T", rv.Interface())
 	}
